@@ -81,13 +81,13 @@ func (err *queryParseError) Error() string {
 	if errors.As(err.err, &e) {
 		offset = e.Offset - len(e.Token) + 1
 	}
-	linestr, line, column := getLineByOffset(err.contents, offset)
+	linestr, line, prefix := getLinePrefixByOffset(err.contents, offset)
 	if err.fname != "<arg>" || containsNewline(err.contents) {
 		return fmt.Sprintf("invalid query: %s:%d\n%s  %s",
-			err.fname, line, formatLineInfo(linestr, line, column), err.err)
+			err.fname, line, formatLineInfo(linestr, line, prefix), err.err)
 	}
-	return fmt.Sprintf("invalid query: %s\n    %s\n    %*c  %s",
-		err.contents, linestr, column+1, '^', err.err)
+	return fmt.Sprintf("invalid query: %s\n    %s\n    %s^  %s",
+		err.contents, linestr, caretIndent(prefix), err.err)
 }
 
 func (*queryParseError) ExitCode() int {
@@ -107,16 +107,16 @@ func (err *jsonParseError) Error() string {
 	} else if e, ok := err.err.(*json.SyntaxError); ok {
 		offset = int(e.Offset)
 	}
-	linestr, line, column := getLineByOffset(err.contents, offset)
+	linestr, line, prefix := getLinePrefixByOffset(err.contents, offset)
 	if line == 0 {
 		line = 1 // the error at the beginning of the empty contents
 	}
 	if line += err.line; line > 1 {
 		return fmt.Sprintf("invalid json: %s:%d\n%s  %s",
-			err.fname, line, formatLineInfo(linestr, line, column), err.err)
+			err.fname, line, formatLineInfo(linestr, line, prefix), err.err)
 	}
-	return fmt.Sprintf("invalid json: %s\n    %s\n    %*c  %s",
-		err.fname, linestr, column+1, '^', err.err)
+	return fmt.Sprintf("invalid json: %s\n    %s\n    %s^  %s",
+		err.fname, linestr, caretIndent(prefix), err.err)
 }
 
 type yamlParseError struct {
@@ -148,12 +148,19 @@ func (err *yamlParseError) Error() string {
 			break
 		}
 	}
-	linestr, line, column := getLineByOffset(err.contents, offset+1)
+	linestr, line, prefix := getLinePrefixByOffset(err.contents, offset+1)
 	return fmt.Sprintf("invalid yaml: %s:%d\n%s  %s",
-		err.fname, line, formatLineInfo(linestr, line, column), message)
+		err.fname, line, formatLineInfo(linestr, line, prefix), message)
 }
 
 func getLineByOffset(str string, offset int) (linestr string, line, column int) {
+	linestr, line, prefix := getLinePrefixByOffset(str, offset)
+	return linestr, line, runewidth.StringWidth(prefix)
+}
+
+// getLinePrefixByOffset returns the line (or its excerpt), the line number,
+// and the part of the line preceding the character at the offset.
+func getLinePrefixByOffset(str string, offset int) (linestr string, line int, prefix string) {
 	ss := &stringScanner{str, 0}
 	for {
 		str, start, ok := ss.next()
@@ -180,8 +187,25 @@ func getLineByOffset(str string, offset int) (linestr string, line, column int) 
 	} else {
 		offset = len(linestr)
 	}
-	column = runewidth.StringWidth(linestr[:offset])
+	prefix = linestr[:offset]
 	return
+}
+
+// caretIndent returns the white space which puts a caret under the character
+// following the prefix. Tabs are kept so that the terminal expands them in
+// the same way as in the line printed above.
+func caretIndent(prefix string) string {
+	var sb strings.Builder
+	for {
+		i := strings.IndexByte(prefix, '\t')
+		if i < 0 {
+			sb.WriteString(strings.Repeat(" ", runewidth.StringWidth(prefix)))
+			return sb.String()
+		}
+		sb.WriteString(strings.Repeat(" ", runewidth.StringWidth(prefix[:i])))
+		sb.WriteByte('\t')
+		prefix = prefix[i+1:]
+	}
 }
 
 func trimLastInvalidRune(s string) string {
@@ -198,9 +222,9 @@ func trimLastInvalidRune(s string) string {
 	return s
 }
 
-func formatLineInfo(linestr string, line, column int) string {
+func formatLineInfo(linestr string, line int, prefix string) string {
 	l := strconv.Itoa(line)
-	return fmt.Sprintf("    %s | %s\n    %*c", l, linestr, column+len(l)+4, '^')
+	return fmt.Sprintf("    %s | %s\n    %*s%s^", l, linestr, len(l)+3, "", caretIndent(prefix))
 }
 
 type stringScanner struct {
